@@ -37,6 +37,7 @@ pub const CL_TERMINATED_SEEN: u32 = 6;
 pub const CL_THREE_PENDING_WAKE_ALL: u32 = 7;
 pub const CL_HANDLE_OPS_TWO: u32 = 8;
 pub const CL_FUTURE_OUTLIVES_HANDLE: u32 = 9;
+pub const OP_POLL_RACE: u8 = 12;
 pub const CL_PROBE: u32 = 10;
 pub const CL_TRY_SOME: u32 = 11;
 pub const CL_TRY_NONE_UPTODATE: u32 = 12;
@@ -45,6 +46,7 @@ pub const CL_LATEST_AFTER_CLOSE: u32 = 14;
 pub const CL_SHARED_REPOLL: u32 = 15;
 pub const CL_SEND_WAKES_TWO: u32 = 16;
 pub const CL_SKIPPED_STATE: u32 = 17;
+pub const CL_RACING_SEND: u32 = 18;
 
 const CLASS_NAMES: &[&str] = &[
     "two-publications-with-id-feedback",
@@ -65,6 +67,7 @@ const CLASS_NAMES: &[&str] = &[
     "shared-future-polled-pending-twice",
     "send-woke-two",
     "receiver-skipped-a-state",
+    "poll-racing-with-send",
 ];
 
 impl World for StateWorld {
@@ -86,6 +89,9 @@ impl World for StateWorld {
         // mode 1: requested ids also come from another channel (ids ahead of this channel's)
         v.push(Cfg { flavour: FL_LOCAL, mode: 1, x: 0, y: 0, k, sw: 0 });
         v.push(Cfg { flavour: FL_SHARED_CHECKED, mode: 1, x: 0, y: 0, k, sw: 0 });
+        // y = 1: polls that race with a send() of another thread
+        v.push(Cfg { flavour: FL_CHECKED, mode: 0, x: 0, y: 1, k, sw: 0 });
+        v.push(Cfg { flavour: FL_SHARED_CHECKED, mode: 0, x: 0, y: 1, k, sw: 0 });
         v
     }
     fn enum_configs(&self, tier: Tier) -> Vec<(Cfg, usize)> {
@@ -108,6 +114,8 @@ impl World for StateWorld {
             spec("drop_receiver", h, 3, 0),
             spec("drop_value", 6, 4, 0),
             spec("probe_after_done", 1, cfg.k, 0),
+            // poll while another thread calls send() at the first instant the internal lock is free
+            spec("poll_racing_send", if cfg.y == 1 { 12 } else { 0 }, cfg.k, 2),
         ]
     }
     fn run(&self, cfg: &Cfg, ops: &[Op], run: &mut Run) {
@@ -129,7 +137,7 @@ impl World for StateWorld {
         }
     }
     fn cfg_desc(&self, cfg: &Cfg) -> String {
-        format!("state-broadcast flavour={} slots={}{}", flavour_name(cfg.flavour), cfg.k, if cfg.mode == 1 { " requested ids also from another channel" } else { "" })
+        format!("state-broadcast flavour={} slots={}{}", flavour_name(cfg.flavour), cfg.k, if cfg.mode == 1 { " requested ids also from another channel" } else if cfg.y == 1 { " racing-send" } else { "" })
     }
     fn class_names(&self) -> &'static [&'static str] {
         CLASS_NAMES
@@ -363,35 +371,12 @@ fn run_m<M: RawMutex + 'static>(cfg: &Cfg, ops: &[Op], run: &mut Run) {
         }};
     }
 
-    monitors!();
-    for (i, op) in ops.iter().enumerate() {
-        if run.failed() {
-            break;
-        }
-        run.set_step(i);
-        run.steps += 1;
-        let op = &recycle(op, &slots, &[OP_MK], OP_POLL, OP_DROP);
-        tls::clear_op_log();
-        tls::alloc_reset();
-        let owners_before = owners!();
-        let pending_before = slots.iter().filter(|s| s.pending()).count();
-        let pend_unwoken = slots.iter().filter(|s| s.pending() && !s.woken()).count();
-        let was_closed = m.closed;
-        let mut implicit_close = false;
-        match op.code {
-            OP_SEND => {
-                let can = match chan {
-                    Chan::S { tx, .. } => !tx.borrow().is_empty(),
-                    _ => true,
-                };
-                match (can, Tagged::fresh()) {
-                    (true, Some(val)) => {
-                        let id = val.id;
-                        let r = run.call("send()", || match chan {
-                            Chan::B(c) => c.send(val),
-                            Chan::S { tx, .. } => tx.borrow().last().unwrap().send(val),
-                        });
-                        if let Some(r) = r {
+    // verdict on the result of a send() and its effect on the model
+    macro_rules! apply_send {
+        ($id:expr, $r:expr, $pend_unwoken:expr) => {{
+            let id: u16 = $id;
+            let r = $r;
+            let pend_unwoken: usize = $pend_unwoken;
                             run.note(|| format!("send(v{}) -> {}", id, if r.is_ok() { "Ok" } else { "Err" }));
                             match r {
                                 Ok(()) => {
@@ -422,6 +407,86 @@ fn run_m<M: RawMutex + 'static>(cfg: &Cfg, ops: &[Op], run: &mut Run) {
                                     keep!(back);
                                 }
                             }
+        }};
+    }
+    // verdict on the result of polling the receive future in slot $s (against the current model)
+    macro_rules! judge_poll {
+        ($s:expr, $w:expr, $r:expr, $was_pending:expr) => {{
+            let s: usize = $s;
+            let w: u8 = $w;
+            let was_pending: bool = $was_pending;
+            let num = slots[s].num;
+            let (q, q_hi) = m.bounds(num);
+            let req = if num < FOREIGN_BASE { m.seen.iter().find(|(_, p)| *p == q).map(|(id, _)| *id) } else { Some(m.foreign[(num - FOREIGN_BASE) as usize]) };
+            match $r {
+                        Some(Poll::Ready(v)) => {
+                            run.note(|| format!("poll slot {} waker {} -> Ready({})", s, w, v.as_ref().map(|(sid, t)| format!("{:?}, v{}", sid, t.id)).unwrap_or("None".into())));
+                            match v {
+                                Some((sid, t)) => {
+                                    // the requested id may have been evicted from `seen`; it is still a valid lower bound
+                                    let req = req.unwrap_or_else(StateId::new);
+                                    delivered!(sid, t, num, req, format!("receive in slot {}", s));
+                                }
+                                None => {
+                                    if !m.closed {
+                                        run.violate("C11", "closed-reported-while-open", format!("receive in slot {} completed with None although the channel is open", s));
+                                    } else if q_hi < m.latest() {
+                                        // C11: "receivers still get all values accepted before the close"
+                                        run.violate2("C13", "C11", "latest-state-withheld", format!("receive in slot {} completed with None after close although publication #{} is newer than the requested #{}", s, m.latest(), q_hi));
+                                    } else {
+                                        run.class(CL_NONE_AFTER_CLOSE);
+                                    }
+                                }
+                            }
+                        }
+                        Some(Poll::Pending) => {
+                            run.note(|| format!("poll slot {} waker {} -> Pending", s, w));
+                            if q_hi < m.latest() {
+                                run.violate("C13", "newer-state-withheld", format!("receive in slot {} returned Pending although publication #{} is newer than the requested #{}", s, m.latest(), q_hi));
+                            } else if m.closed {
+                                run.violate2("C11", "C13", "pending-on-closed-channel", format!("receive in slot {} returned Pending on a closed channel", s));
+                            }
+                            if was_pending {
+                                run.class(CL_REPOLL_PENDING);
+                                if shared {
+                                    run.class(CL_SHARED_REPOLL);
+                                }
+                            }
+                        }
+                        None => {}
+            }
+        }};
+    }
+    monitors!();
+    for (i, op) in ops.iter().enumerate() {
+        if run.failed() {
+            break;
+        }
+        run.set_step(i);
+        run.steps += 1;
+        let op = &recycle(op, &slots, &[OP_MK], OP_POLL, OP_DROP);
+        tls::clear_op_log();
+        tls::alloc_reset();
+        let owners_before = owners!();
+        let pending_before = slots.iter().filter(|s| s.pending()).count();
+        let pend_unwoken = slots.iter().filter(|s| s.pending() && !s.woken()).count();
+        let was_closed = m.closed;
+        let mut implicit_close = false;
+        match op.code {
+            OP_SEND => {
+                let can = match chan {
+                    Chan::S { tx, .. } => !tx.borrow().is_empty(),
+                    _ => true,
+                };
+                match (can, Tagged::fresh()) {
+                    (true, Some(val)) => {
+                        let id = val.id;
+                        let r = run.call("send()", || match chan {
+                            Chan::B(c) => c.send(val),
+                            Chan::S { tx, .. } => tx.borrow().last().unwrap().send(val),
+                        });
+                        if let Some(r) = r {
+                            apply_send!(id, r, pend_unwoken);
                         }
                     }
                     _ => run.noops += 1,
@@ -469,48 +534,62 @@ fn run_m<M: RawMutex + 'static>(cfg: &Cfg, ops: &[Op], run: &mut Run) {
             OP_POLL => match next_where(&slots, op.a, |s| s.pollable()) {
                 Some(s) => {
                     let was_pending = slots[s].pending();
-                    let num = slots[s].num;
-                    let (q, q_hi) = m.bounds(num);
-                    let req = if num < FOREIGN_BASE { m.seen.iter().find(|(_, p)| *p == q).map(|(id, _)| *id) } else { Some(m.foreign[(num - FOREIGN_BASE) as usize]) };
-                    match slots[s].poll(op.b, run) {
-                        Some(Poll::Ready(v)) => {
-                            run.note(|| format!("poll slot {} waker {} -> Ready({})", s, op.b, v.as_ref().map(|(sid, t)| format!("{:?}, v{}", sid, t.id)).unwrap_or("None".into())));
-                            match v {
-                                Some((sid, t)) => {
-                                    // the requested id may have been evicted from `seen`; it is still a valid lower bound
-                                    let req = req.unwrap_or_else(StateId::new);
-                                    delivered!(sid, t, num, req, format!("receive in slot {}", s));
-                                }
-                                None => {
-                                    if !m.closed {
-                                        run.violate("C11", "closed-reported-while-open", format!("receive in slot {} completed with None although the channel is open", s));
-                                    } else if q_hi < m.latest() {
-                                        // C11: "receivers still get all values accepted before the close"
-                                        run.violate2("C13", "C11", "latest-state-withheld", format!("receive in slot {} completed with None after close although publication #{} is newer than the requested #{}", s, m.latest(), q_hi));
-                                    } else {
-                                        run.class(CL_NONE_AFTER_CLOSE);
-                                    }
-                                }
-                            }
-                        }
-                        Some(Poll::Pending) => {
-                            run.note(|| format!("poll slot {} waker {} -> Pending", s, op.b));
-                            if q_hi < m.latest() {
-                                run.violate("C13", "newer-state-withheld", format!("receive in slot {} returned Pending although publication #{} is newer than the requested #{}", s, m.latest(), q_hi));
-                            } else if m.closed {
-                                run.violate2("C11", "C13", "pending-on-closed-channel", format!("receive in slot {} returned Pending on a closed channel", s));
-                            }
-                            if was_pending {
-                                run.class(CL_REPOLL_PENDING);
-                                if shared {
-                                    run.class(CL_SHARED_REPOLL);
-                                }
-                            }
-                        }
-                        None => {}
-                    }
+                    let r = slots[s].poll(op.b, run);
+                    judge_poll!(s, op.b, r, was_pending);
                 }
                 None => run.noops += 1,
+            },
+            OP_POLL_RACE if cfg.y == 1 => match (next_where(&slots, op.a, |s| s.pollable()), Tagged::fresh()) {
+                (Some(s), Some(val)) if match chan {
+                    Chan::S { tx, .. } => !tx.borrow().is_empty(),
+                    _ => true,
+                } =>
+                {
+                    run.class(CL_RACING_SEND);
+                    let was_pending = slots[s].pending();
+                    let id = val.id;
+                    let mut rc: RaceCtx<'_, M> = RaceCtx { chan, val: Some(val), res: None };
+                    tls::install_unlock_hook(&mut rc as *mut RaceCtx<'_, M> as usize, race_send::<M>);
+                    let r = slots[s].poll(op.b, run);
+                    let (fired, relocked) = tls::remove_unlock_hook();
+                    if !fired && !run.failed() {
+                        // the poll never released the internal lock: the other thread's send comes after it
+                        let rcp = &mut rc;
+                        run.call("send()", || unsafe { race_send::<M>(rcp as *mut RaceCtx<'_, M> as usize) });
+                    }
+                    run.note(|| format!("poll slot {} waker {} racing with send(v{}) (send ran inside the poll: {}, poll locked again afterwards: {})", s, op.b, id, fired, relocked));
+                    match rc.res.take() {
+                        Some(sr) if !run.failed() => {
+                            // one critical section per poll: the send came after the poll took effect. A poll
+                            // that locked again may have seen the new state: then the send came first.
+                            let saw_new = matches!(&r, Some(Poll::Ready(Some((_, t)))) if t.id == id);
+                            if relocked && saw_new {
+                                apply_send!(id, sr, pend_unwoken);
+                                judge_poll!(s, op.b, r, was_pending);
+                            } else if relocked && matches!(&r, Some(Poll::Pending)) {
+                                // order unknown: no verdict on Pending itself; the monitors below decide whether
+                                // the receiver is stranded behind the new state
+                                apply_send!(id, sr, pend_unwoken);
+                                run.note(|| format!("poll slot {} -> Pending", s));
+                            } else {
+                                judge_poll!(s, op.b, r, was_pending);
+                                apply_send!(id, sr, pend_unwoken);
+                            }
+                        }
+                        _ => {
+                            if let Some(v) = rc.val.take() {
+                                keep!(v);
+                            }
+                            if let Some(Poll::Ready(Some((_, t)))) = r {
+                                std::mem::forget(t);
+                            }
+                        }
+                    }
+                }
+                (_, v) => {
+                    drop(v);
+                    run.noops += 1
+                }
             },
             OP_DROP => match next_where(&slots, op.a, |s| s.alive()) {
                 Some(s) => {
@@ -720,6 +799,23 @@ fn run_m<M: RawMutex + 'static>(cfg: &Cfg, ops: &[Op], run: &mut Run) {
                 return;
             }
         }
+    }
+}
+
+/// The send() of another thread that races with a poll (`tls::install_unlock_hook`).
+struct RaceCtx<'a, M: RawMutex + 'static> {
+    chan: &'a Chan<M>,
+    val: Option<Tagged>,
+    res: Option<Result<(), futures_intrusive::channel::ChannelSendError<Tagged>>>,
+}
+
+unsafe fn race_send<M: RawMutex + 'static>(ctx: usize) {
+    let rc = &mut *(ctx as *mut RaceCtx<'static, M>);
+    if let Some(val) = rc.val.take() {
+        rc.res = Some(match rc.chan {
+            Chan::B(c) => c.send(val),
+            Chan::S { tx, .. } => tx.borrow().last().unwrap().send(val),
+        });
     }
 }
 
